@@ -49,7 +49,8 @@ one_write(uint32_t addr, uint32_t n, const unsigned char *words, const char *pat
     const struct rt_reg *firstbad = NULL;
     /* unmapped / read-only: first address each */
     int seen_unmapped = 0, seen_ro = 0;
-    for (uint32_t k = 0; k < n; k++) {
+    /* the whole table spans far less than 200 words: whatever a longer request adds is unmapped */
+    for (uint32_t k = 0; k < n && k < 200; k++) {
         int ai = rt_area_of(d, addr + k);
         if (ai < 0) {
             if (!seen_unmapped) {
@@ -90,7 +91,16 @@ one_write(uint32_t addr, uint32_t n, const unsigned char *words, const char *pat
             firstbad = r;
         }
     }
-    RegisterAtom *buf = bufs[n];
+    static RegisterAtom *bigbuf;
+    RegisterAtom *buf;
+    if (n < 64) {
+        buf = bufs[n];
+    } else {
+        /* long requests: an ordinary heap buffer of exactly n words */
+        free(bigbuf);
+        bigbuf = malloc(2 * (size_t)n);
+        buf = bigbuf;
+    }
     memcpy(buf, words, 2 * (size_t)n);
     RegisterAccess a = register_block_write(&inst.t, addr, n, buf);
     nwrites++;
@@ -231,7 +241,7 @@ u_table(uint64_t idx, void *arg)
     uint32_t span = hi - lo;
     uint32_t a0 = lo >= 2 ? lo - 2 : 0;
     nwrites = 0;
-    unsigned char words[128];
+    static unsigned char words[128];
     for (uint32_t addr = a0; addr <= hi + 2; addr++)
         for (uint32_t n = 0; n <= span + 3 && n < 64; n++) {
             if (!vh_tier && n > 9 && !(addr + n >= hi) && !vh_chance(&rg, 1, 4))
@@ -246,6 +256,30 @@ u_table(uint64_t idx, void *arg)
                 one_write(addr, n, words, patname[pat]);
             }
         }
+    /* requests much longer than the table (lengths beyond 255 and 65535 words): they leave the mapped range, so
+     * they must be refused without any effect - at the first unmapped address, or for another applicable reason */
+    {
+        static const uint32_t longn[] = { 255, 256, 65535, 65536, 65537, 0x100000 };
+        static unsigned char *lw;
+        if (!lw)
+            lw = calloc(0x100000, 2);
+        for (size_t li = 0; li < 6; li++)
+            for (int k = 0; k < 3; k++) {
+                uint32_t addr = k == 0 ? lo : k == 1 ? (a0 + (uint32_t)vh_below(&rg, hi - a0 + 1)) : (d.nregs ? d.reg[d.nregs - 1].addr : lo);
+                if ((uint64_t)addr + longn[li] > 0xffffffffull)
+                    continue;
+                for (uint32_t w = 0; w < 64; w++) {
+                    unsigned char *mw = rt_model_word(&inst, addr + w);
+                    if (mw)
+                        memcpy(lw + 2 * w, mw, 2);
+                    else
+                        memset(lw + 2 * w, 0, 2);
+                }
+                VH_CASE4(idx, addr, longn[li], 9);
+                one_write(addr, longn[li], lw, "long-request");
+                VH_COUNT("block write much longer than the table");
+            }
+    }
     vh_sig(0x02000000ull ^ idx);
     vh_countf("tables with %d areas", d.nareas);
     if (idx < 3)
@@ -268,7 +302,8 @@ harness_run(void)
                                  "failing register overlap: interior out-of-range",
                                  "failing register overlap: head invalid", "failing register overlap: tail invalid",
                                  "failing register overlap: interior invalid",
-                                 "tables with 1 areas", "tables with 2 areas", "tables with 3 areas" };
+                                 "tables with 1 areas", "tables with 2 areas", "tables with 3 areas",
+                                 "block write much longer than the table" };
     for (size_t i = 0; i < sizeof req / sizeof req[0]; i++)
         vh_require(req[i]);
 }
